@@ -109,17 +109,24 @@ func (vClient) ActiveValidators(context.Context) (eth2wrap.ActiveValidators, err
 	return eth2wrap.ActiveValidators{1: vFill(0xaa), 2: vFill(0xbb), 3: vFill(0xcc)}, nil
 }
 
+// vSparseSpec: the beacon node's spec response lacks the two selection-proof domain types (a sparse /config/spec): nothing
+// can be verified in those domains, so nothing signed in them may be admitted.
+var vSparseSpec bool
+
 func (vClient) Spec(context.Context, *eth2api.SpecOpts) (*eth2api.Response[map[string]any], error) {
-	return &eth2api.Response[map[string]any]{Data: map[string]any{
-		"SLOTS_PER_EPOCH":                   uint64(4),
-		"SECONDS_PER_SLOT":                  12 * time.Second,
-		string(signing.DomainSyncCommittee): eth2p0.DomainType{7, 0, 0, 0},
-		string(signing.DomainExit):          eth2p0.DomainType{4, 0, 0, 0},
+	m := map[string]any{
+		"SLOTS_PER_EPOCH":                    uint64(4),
+		"SECONDS_PER_SLOT":                   12 * time.Second,
+		string(signing.DomainSyncCommittee):  eth2p0.DomainType{7, 0, 0, 0},
+		string(signing.DomainExit):           eth2p0.DomainType{4, 0, 0, 0},
 		string(signing.DomainBeaconAttester): eth2p0.DomainType{1, 0, 0, 0},
-		string(signing.DomainBeaconProposer):              eth2p0.DomainType{0, 0, 0, 0},
-		string(signing.DomainSelectionProof):              eth2p0.DomainType{5, 0, 0, 0},
-		string(signing.DomainSyncCommitteeSelectionProof): eth2p0.DomainType{8, 0, 0, 0},
-	}}, nil
+		string(signing.DomainBeaconProposer): eth2p0.DomainType{0, 0, 0, 0},
+	}
+	if !vSparseSpec {
+		m[string(signing.DomainSelectionProof)] = eth2p0.DomainType{5, 0, 0, 0}
+		m[string(signing.DomainSyncCommitteeSelectionProof)] = eth2p0.DomainType{8, 0, 0, 0}
+	}
+	return &eth2api.Response[map[string]any]{Data: m}, nil
 }
 
 func (vClient) Domain(_ context.Context, dt eth2p0.DomainType, epoch eth2p0.Epoch) (eth2p0.Domain, error) {
@@ -351,6 +358,9 @@ func VerifC10VapiSelection() {
 	for i := 0; i < 8; i++ {
 		sig[2+i] = sd[i]
 	}
+	// "sparse"=1: from here on the beacon node's spec lacks the selection-proof domain types (the token above was made by
+	// a signer that knew them)
+	vSparseSpec = vrt.Param("sparse") == 1
 	c.RegisterAwaitAggSigDB(func(_ context.Context, _ core.Duty, _ core.PubKey, _ core.SubcommitteeIndex) (core.SignedData, error) {
 		if kind == 1 {
 			return core.SyncCommitteeSelection{SyncCommitteeSelection: eth2v1.SyncCommitteeSelection{ValidatorIndex: eth2p0.ValidatorIndex(vidx), Slot: eth2p0.Slot(slot), SubcommitteeIndex: sub}}, nil
@@ -364,7 +374,7 @@ func VerifC10VapiSelection() {
 		want = 22
 	}
 	sameFork := (slot/4 >= 20) == (sForkEpoch >= 20)
-	valid := want != 0 && sig[0] == 1 && sKey == want && sSlot == slot && (kind == 0 || sSub == sub) && sameFork && !sOtherDomain
+	valid := want != 0 && sig[0] == 1 && sKey == want && sSlot == slot && (kind == 0 || sSub == sub) && sameFork && !sOtherDomain && !vSparseSpec
 	var err error
 	if kind == 1 {
 		_, err = c.SyncCommitteeSelections(context.Background(), &eth2api.SyncCommitteeSelectionsOpts{Selections: []*eth2v1.SyncCommitteeSelection{
@@ -379,6 +389,7 @@ func VerifC10VapiSelection() {
 	if err == nil {
 		vrt.Reach("accepted")
 	}
+	vSparseSpec = false
 	vrt.Reach("end")
 }
 
